@@ -28,32 +28,32 @@ CLAIMS = {
  'C07': dict(cat='other', tech='folded ids/layouts vs an independently authored reference table (wire shapes) for README releases',
    text='For each release the README lists (30 protocol numbers) and the core packet set, the folded id and field layout reduced to wire shapes equal reference/protocol_core.json, a table written from the protocol documentation sharing no code with pyCraft.',
    note='The reference table is authored from memory of wiki.vg (no network here); entries I could not vouch for are omitted and listed.', ref='3/C07'),
- 'C08': dict(cat='proof', tech='constant folding of initglobals over the literal records vs a reference projection; order-type decision of the predicates',
-   text='The derived tables are folded from the literal record list through initglobals and equal an independently stated projection (order-preserving, duplicate-free, index strictly increasing); re-initialisation folds to the same tables, in place, also after extending the records; the two comparison functions and five context predicates are the chronological <, <=, >, >=, in-range (order types; thorough: all 136k pairs).',
+ 'C08': dict(cat='proof', tech='constant folding of initglobals over the literal records vs a reference projection; order-type decision of the predicates; no-memoisation reachability over the call graph',
+   text='The derived tables are folded from the literal record list through initglobals and equal an independently stated projection (order-preserving, duplicate-free, index strictly increasing); re-initialisation folds to the same tables, in place, also after extending the records; the two comparison functions and five context predicates are the chronological <, <=, >, >=, in-range (order types; thorough: all 136k pairs); nothing reachable from a predicate is memoised (decorator or self-filled cache), so a rebuilt table is seen at once.',
    note='Trusted: fold evaluator; behaviour for ill-formed user records at run time is outside any static view.', ref='3/C08'),
  'C09': dict(cat='other', tech='path-sensitive effect summaries of connect/status/handle_status/StatusReactor.react compared with the negotiation decision table; field completeness of constructed packets; folding of the version helper',
-   text='Decides branch structure and ordering: construction helper returns only supported versions or raises; single-version arm = handshake(playing)+login start from token profile or username, no status request; other arm = handshake(status)+request; status evaluation order (empty -> raise, missing -> default path, not allowed -> mismatch, else narrow+reconnect); EOF-only fallback; plain status calls the handler once, pings only on request, always disconnects.',
+   text='Decides branch structure and ordering: both constructor inputs flow through one validating function (found by data flow), which returns only members of the supported set and otherwise raises ValueError (its own path summaries); _version_mismatch raises VersionMismatch with the right text for every way its two arguments can be given; single-version arm = handshake(playing)+login start from token profile or username, no status request; other arm = handshake(status)+request; status evaluation order (empty -> raise, missing -> default path, not allowed -> mismatch, else narrow+reconnect); EOF-only fallback; plain status calls the handler once, pings only on request, always disconnects.',
    note='Latency sign, JSON contents and server integers are run-time values: not decided.', ref='3/C09'),
  'C10': dict(cat='other', tech='path-sensitive effect summaries of LoginReactor.react grouped by packet name: per-arm dataflow and ordering obligations',
-   text='Decides per arm, on all paths: one secret flows to RSA encryption, hash and cipher; response fields get encrypted secret/token in the right slots; forced write dominates both wrapper installations; both socket and file object wrapped from one cipher; compression arm sets threshold and flag; plugin arm writes exactly one unsuccessful response with the request id; success installs the play reactor; disconnect arm always raises and only the chat object text member or the raw data reach the string consumers; the secret is generated afresh on every path and kept only in a local; the transport (file object) is re-read from the connection for every packet so the cipher applies to the very next frame.',
+   text='Decides per arm, on all paths: one secret flows to RSA encryption, hash and cipher; response fields get encrypted secret/token in the right slots; forced write dominates both wrapper installations; both socket and file object wrapped from one cipher; compression arm sets threshold and flag; plugin arm writes exactly one unsuccessful response with the request id; success installs the play reactor; disconnect arm always raises and only the chat object text member or the raw data reach the string consumers, and the mismatch helper it calls raises VersionMismatch also for a version name the tables do not know; the secret is generated afresh on every path and kept only in a local; the transport (file object) is re-read from the connection for every packet so the cipher applies to the very next frame.',
    note='Stateless dispatch makes every-order reduce to per-arm obligations; crypto numerics in C18.', ref='3/C10'),
  'C11': dict(cat='other', tech='path-sensitive effect summaries of PlayingReactor.react / read_packet / _run: per-arm obligations + three-way version-predicate agreement by folding',
-   text='Decides: keep-alive arm queues exactly one reply carrying the incoming id, same codec both ways in every version; position arm sets spawned on all paths, its version test agrees with the presence of teleport_id and the registration of TeleportConfirm in every version, each sub-arm writes one fully populated packet; unknown ids never touch the stream; disconnect arm disconnects; exit callback called at one guarded site; every packet read is handed to _react before the thread reads again or leaves the loop.',
+   text='Decides: keep-alive arm queues exactly one reply carrying the incoming id, same codec both ways in every version; position arm sets spawned on all paths, its version test agrees with the presence of teleport_id and the registration of TeleportConfirm in every version, each sub-arm writes one fully populated packet; unknown ids never touch the stream; disconnect arm disconnects; disconnect() stores connected = False on every exit (also when the final flush fails), which is what the exit callback is guarded by; exit callback called at one guarded site; every packet read is handed to _react before the thread reads again or leaves the loop.',
    note='Batch-limit behaviour over long histories is a run-time quantity: not decided.', ref='3/C11'),
- 'C12': dict(cat='other', tech='lockset (must-hold) analysis over the resolved call graph, who-may-call, alias-aware socket and queue census',
-   text='Decides the discipline atomicity rests on: only Packet._write_buffer (and the cipher wrapper) send on the socket, two consecutive sends with no call between; on every call path to _write_packet the write lock is held; the queue is only appended and popleft-ed (under the lock); disconnect flushes iff not immediate, inside the lock, before interrupt and close.',
+ 'C12': dict(cat='other', tech='lockset (must-hold) analysis over the resolved call graph, who-may-call, alias-aware socket and queue census, ownership of the frame buffer and of the popped packet on path summaries',
+   text='Decides the discipline atomicity rests on: only Packet._write_buffer (and the cipher wrapper) send on the socket, two consecutive sends with no call between, from a buffer created by that very Packet.write call and held by nothing else; on every call path to _write_packet the write lock is held; the queue is only appended and popleft-ed (under the lock); disconnect flushes iff not immediate, inside the lock, before interrupt and close.',
    note='Schedules themselves are not explored; the lock discipline is a path fact that holds for all of them. OS partial sends not decided.', ref='3/C12'),
  'C13': dict(cat='other', tech='path-sensitive effect summaries of _react/_write_packet/register_packet_listener/PacketListener: stage order, exception scope per call site, list choice per flag combination',
    text='Decides: the list chosen by (early, outgoing) is the documented one for all four combinations and insertion is append; _react runs early loop, reaction, ordinary loop in that order inside one IgnorePacket-only handler; _write_packet runs early-outgoing loop, write, outgoing loop likewise; call_packet filters by isinstance and calls back at most once; the listener keeps every packet type it was registered with.',
    note='What user callbacks do is not decided.', ref='3/C13'),
  'C14': dict(cat='other', tech='path-sensitive effect summaries (exceptions followed into handlers, loop exits) of run and _handle_exception: ordering, guard and re-binding relations',
-   text='Decides: _run and _handle_exit are contained by an Exception handler that sets interrupt before dispatch and clears the slot in finally; first matching handler wins (break), a raising handler rebinds exc and exc_info and falls through; the final handler stage runs on both loop exits guarded only by not-in-(None, False); the record store follows it; close is guarded by the newest slot interrupt; re-raise iff final handler is None and nothing caught; early registration inserts at 0.',
+   text='Decides: _run and _handle_exit are contained by an Exception handler that, on every path that caught something, sets interrupt and dispatches it (nothing is dropped), and clears the slot in finally; first matching handler wins (break), a raising handler rebinds exc and exc_info and falls through; the final handler stage runs on both loop exits guarded only by not-in-(None, False); the record store follows it; close is guarded by the newest slot interrupt; re-raise iff final handler is None and nothing caught; early registration inserts at 0.',
    note='Dynamic type match of a particular exception is not decided.', ref='3/C14'),
  'C15': dict(cat='other', tech='EOF-progress rule over the loop summaries of every stream-reading loop, frame-complete loop invariant (linear forms), loop-free error path (call graph)',
    text='Decides: every loop containing a stream read either tests that read for emptiness each iteration with the true arm leaving the loop, or is counter-bounded; _react is called only on packets returned past the reassembly condition and no break leaves that loop; the error path to thread exit contains no stream-reading loop; wrappers preserve empty reads; status-phase EOF fallback is EOFError-only.',
    note='A numeric bound on I/O steps and select() behaviour are not decided.', ref='3/C15'),
  'C16': dict(cat='other', tech='who-may-construct (call graph), three-valued activity predicate over path decisions, effects on every exit of the lifecycle methods (path summaries), definite assignment',
-   text='Decides: threads are constructed and started only in _start_network_thread under the lock on valid-state paths, whose condition is the same boolean function as _check_connection; the successor joins its predecessor before running; the check dominates every state change in connect/status; every attribute disconnect reads is initialised in __init__ and socket/file_object are published together; teardown runs on every exit of disconnect; every loop in _run tests interrupt; shutdown covers the read direction so a blocked reader is woken.',
+   text='Decides: threads are constructed and started only in _start_network_thread under the lock on valid-state paths, whose condition is the same boolean function as _check_connection; the successor joins its predecessor before running and has emptied the successor slot on every exit; the check dominates every state change in connect/status; every attribute disconnect reads is initialised in __init__ and socket/file_object are published together; teardown runs on every exit of disconnect; every polling or counted loop of _run and of the helpers it is split into leaves on the interrupt flag; shutdown covers the read direction so a blocked reader is woken.',
    note='Interleavings of two user threads beyond the lock discipline are not explored.', ref='3/C16'),
  'C17': dict(cat='other', tech='term extraction (path summaries, helpers inlined, hash updates in effect order) of generate_verification_hash vs reference term',
    text='Decides: the hash is format(int.from_bytes(sha1(utf8(server_id) || secret || key).digest(), big, signed=True), "x") - update order, encoding, byte order, signedness, lower-case hex - and the use site passes (server_id, secret, public_key) in order to join; a hand-written signed conversion is recognised and its sign test folded over all 256 first-byte values.',
@@ -64,8 +64,8 @@ CLAIMS = {
  'C19': dict(cat='other', tech='path-sensitive effect summaries of the token operations: request-shape table agreement, stores only after the error check returned, error-mapper classification; folding of the authenticated predicate',
    text='Decides: authenticated is the conjunction of its four inputs (16 combinations), Profile truth is id and name present; each operation posts the documented endpoint and payload keys from the documented sources; every store to token fields is dominated by the raise-on-error call; _raise_from_response returns only on OK and every other path raises with status_code set; validate true only on 204; join guarded by authenticated.',
    note='Real HTTP encoding and requests behaviour are not decided.', ref='3/C19'),
- 'C20': dict(cat='other', tech='effect/guard relations on the path summaries of the tracker apply methods and record/vector helpers, alias closures',
-   text='Narrow claim: only AddPlayerAction inserts into the player table, updates use a non-raising lookup and store under a guard, removal is guarded; each position axis adds under its protocol flag bit and overwrites otherwise, angles wrap last; map patch indexes with packet width / map stride / offset x,z; alias getter/setter/deleter close over the same names; eq and hash enumerate the same slots, which are a pure function of the own MRO of the class (no cache a subclass could inherit); vector operators preserve type and pair components.',
+ 'C20': dict(cat='other', tech='effect/guard relations on the path summaries of the tracker apply methods and record/vector helpers; alias descriptors applied symbolically (continuation summaries)',
+   text='Narrow claim: only AddPlayerAction inserts into the player table, updates use a non-raising lookup and store under a guard, removal is guarded; each position axis adds under its protocol flag bit and overwrites otherwise, angles wrap last; map patch indexes with packet width / map stride / offset x,z; the descriptor each alias factory returns, applied to self, reads / stores / deletes exactly the aliased attribute path (transforms in the right direction); eq and hash enumerate the same slots, which are a pure function of the own MRO of the class (no cache a subclass could inherit); vector operators preserve type and pair components.',
    note='Tracker state after a history, name_from_value round trips and numeric vector results are value-level: not applicable to static analysis.', ref='3/C20'),
 }
 
